@@ -24,6 +24,7 @@ import (
 
 	"verif/harness/internal/pkgmodel"
 	"verif/harness/internal/rep"
+	"verif/harness/internal/schedx"
 	"verif/harness/internal/shard"
 )
 
@@ -302,4 +303,39 @@ func styleChunkHash(raw []byte) string {
 	}
 	sort.Strings(chunks)
 	return "chunks:" + rep.Hash(append([]string{s[:first], s[last+len("</w:style>"):]}, chunks...)...)
+}
+
+// exploreTiers runs the schedule exploration of one scenario in the passes that make up the
+// stated bound: (1) every instrumented statement is a scheduling point, <= 1 preemption;
+// (2) only lock operations and function entries are scheduling points, <= 2 preemptions.
+// In the thorough tier a third pass (statement-level points, <= 2 preemptions) is added under
+// an execution cap; hitting that cap is reported in the notes and does not make the stated
+// bound incomplete.  The returned stats are the sums over the passes.
+func exploreTiers(sc schedx.Scenario, maxExec int64, beat func(), thorough bool, onExec func(*schedx.Result), P *rep.Partial, what string) *schedx.Stats {
+	coarse := func(site string) bool { return strings.HasSuffix(site, ":0") }
+	total := &schedx.Stats{}
+	add := func(st *schedx.Stats, label string, counts bool) {
+		total.Executions += st.Executions
+		total.Points += st.Points
+		total.Branching += st.Branching
+		total.Deadlocks += st.Deadlocks
+		if st.MaxPoints > total.MaxPoints {
+			total.MaxPoints = st.MaxPoints
+		}
+		total.Divergences = append(total.Divergences, st.Divergences...)
+		if st.Incomplete {
+			if counts {
+				total.Incomplete = true
+				total.Capped = total.Capped || st.Capped
+			}
+			P.Notes = append(P.Notes, fmt.Sprintf("%s: pass %q stopped after %d schedules (cap hit: %v, preemption bound completed: %d)", what, label, st.Executions, st.Capped, st.BoundDone))
+		}
+		P.Add("schedules_"+label, st.Executions)
+	}
+	add(schedx.Explore(sc, schedx.Options{Bound: 1, Horizon: 500000, MaxExec: maxExec, Progress: beat}, onExec), "statement-points_1-preemption", true)
+	add(schedx.Explore(sc, schedx.Options{Bound: 2, Horizon: 500000, MaxExec: maxExec, Progress: beat, Filter: coarse}, onExec), "function-points_2-preemptions", true)
+	if thorough {
+		add(schedx.Explore(sc, schedx.Options{Bound: 2, Horizon: 500000, MaxExec: maxExec, Progress: beat}, onExec), "statement-points_2-preemptions_capped-bonus", false)
+	}
+	return total
 }
